@@ -91,6 +91,21 @@ class Arr:
         return "Arr" + self.key()
 
 
+class Obj:
+    """a record with named attributes (atom entries, space-group objects)"""
+
+    def __init__(self, name, **attrs):
+        self.name = name
+        self.attrs = dict(attrs)
+        self.stores = []          # (attribute, value) written by the analysed code
+
+    def key(self):
+        return self.name
+
+    def __repr__(self):
+        return "Obj(%s)" % self.name
+
+
 class Opaque:
     """a value known only by provenance; indexing yields atoms key[i,j]"""
 
@@ -111,8 +126,10 @@ class Opaque:
 def vkey(v):
     if isinstance(v, Rat):
         return v.key()
-    if isinstance(v, (Arr, Opaque)):
+    if isinstance(v, (Arr, Opaque, Obj)):
         return v.key()
+    if isinstance(v, dict):
+        return "{" + ",".join("%s:%s" % (k, vkey(x)) for k, x in sorted(v.items())) + "}"
     if isinstance(v, (list, tuple)):
         return "[" + ",".join(vkey(x) for x in v) + "]"
     return repr(v)
@@ -197,11 +214,12 @@ ELEMENTWISE = {"cos", "sin", "tan", "exp", "arccos", "arcsin", "arctan", "sqrt",
 
 
 class Evaluator:
-    def __init__(self, mod, inline=True, branch_policy=None, call_policy=None, max_depth=6):
+    def __init__(self, mod, inline=True, branch_policy=None, call_policy=None, max_depth=6, import_policy=None):
         self.mod = mod
         self.inline = inline              # True: every module-level function; or a set of names
         self.branch_policy = branch_policy
         self.call_policy = call_policy    # (name, args, kwargs, node) -> value or NotImplemented
+        self.import_policy = import_policy  # (dotted name, args, kwargs, node) -> value or NotImplemented
         self.max_depth = max_depth
         self.depth = 0
         self.trace = []                   # notes (asserts skipped, branches chosen)
@@ -365,6 +383,13 @@ class Evaluator:
             for t, v in zip(target.elts, seq):
                 self.assign(t, v, env)
             return
+        if isinstance(target, ast.Attribute):
+            base = self.eval(target.value, env)
+            if isinstance(base, Obj):
+                base.attrs[target.attr] = val
+                base.stores.append((target.attr, val))
+                return
+            raise AnalysisError("E3: attribute store on %r (line %d)" % (type(base).__name__, target.lineno))
         if isinstance(target, ast.Subscript):
             base = self.eval(target.value, env)
             idx = self.index_of(target.slice, env)
@@ -636,13 +661,16 @@ class Evaluator:
         raise AnalysisError("E3: unsupported comparison (line %d)" % node.lineno)
 
     def e_BoolOp(self, node, env):
-        vals = []
+        is_and = isinstance(node.op, ast.And)
         for v in node.values:
             r = self.eval(v, env)
             if not isinstance(r, bool):
                 raise AnalysisError("E3: boolean operand does not fold (line %d)" % node.lineno)
-            vals.append(r)
-        return all(vals) if isinstance(node.op, ast.And) else any(vals)
+            if is_and and not r:
+                return False
+            if not is_and and r:
+                return True
+        return is_and
 
     def e_IfExp(self, node, env):
         return self.eval(node.body if self.decide(node.test, env) else node.orelse, env)
@@ -652,6 +680,11 @@ class Evaluator:
         if isinstance(base, tuple) and base and base[0] == "import":
             # a table of another module indexed by a (symbolic) key: opaque row
             return Opaque("%s[%s]" % (base[1], vkey(self.eval(node.slice, env))))
+        if isinstance(base, dict):
+            k = self.eval(node.slice, env)
+            if k not in base:
+                raise AnalysisError("E3: key %r not in the modelled dictionary (line %d)" % (k, node.lineno))
+            return base[k]
         return self.subscript(base, self.index_of(node.slice, env), node)
 
     def e_Attribute(self, node, env):
@@ -666,6 +699,10 @@ class Evaluator:
             return ("npfunc", base[1].split(".", 1)[1] + "." + node.attr)
         if isinstance(base, tuple) and base and base[0] == "import":
             return ("import", base[1] + "." + node.attr)
+        if isinstance(base, Obj):
+            if node.attr not in base.attrs:
+                raise AnalysisError("E3: object %s has no attribute %s (line %d)" % (base.name, node.attr, node.lineno))
+            return base.attrs[node.attr]
         if node.attr == "T":
             return self.np_transpose(base, node)
         if node.attr == "shape":
@@ -699,6 +736,11 @@ class Evaluator:
                     return self.np_call(alias.get(name[5:], name[5:]), args, kwargs, node)
                 if name.startswith("six.moves.range"):
                     return self.builtin("range", args, kwargs, node)
+                self.calls.append((name, [vkey(a) for a in args], node.lineno))
+                if self.import_policy is not None:
+                    r = self.import_policy(name, args, kwargs, node)
+                    if r is not NotImplemented:
+                        return r
                 return self.opaque_call(name, args, kwargs, node)
             if kind == "method":
                 return self.method_call(f[1], f[2], args, kwargs, node)
@@ -1003,3 +1045,42 @@ def eval_reference(expr: str, env: dict, mod=None):
     ev = Evaluator(mod or _M(), inline=set())
     tree = ast.parse(expr.strip(), mode="eval")
     return ev.eval(tree.body, dict(env))
+
+
+def deep_subs(r, mapping):
+    """substitute atoms by normal forms, also inside the arguments of function atoms
+    and radicands (function atoms are rebuilt through the same constructors, so parity
+    and atom re-use normalisations apply)"""
+    from .poly import ATOM_ARGS, RADICAND
+    r = scalar(r)
+    ev = Evaluator(type("M", (), {"np_alias": set(), "functions": {}, "imports": {}})(), inline=set())
+    full = {}
+
+    def image(a):
+        if a in full:
+            return full[a]
+        if a in mapping:
+            v = scalar(mapping[a])
+        elif a in ATOM_ARGS:
+            name, args = ATOM_ARGS[a]
+            nargs = [rec(x) for x in args]
+            if all(x.equals(y) for x, y in zip(args, nargs)):
+                v = Rat.atom(a)
+            elif len(nargs) == 1 and name in ELEMENTWISE:
+                v = ev.apply_unary(name, nargs[0], None)
+            else:
+                v = func_atom(name, *nargs)
+        elif a in RADICAND and a.startswith("sqrt("):
+            rad = RADICAND[a]
+            nrad = rec(rad)
+            v = Rat.atom(a) if nrad.equals(rad) else sqrt_of(nrad)
+        else:
+            v = Rat.atom(a)
+        full[a] = v
+        return v
+
+    def rec(x):
+        m = {a: image(a) for a in x.atoms()}
+        m = {a: v for a, v in m.items() if not v.equals(Rat.atom(a))}
+        return x.subs(m) if m else x
+    return rec(r)
